@@ -280,7 +280,8 @@ def collision_pairs(b, ec, rng, n):
 
 def frames_equal_exact(a, c):
     return list(a.columns) == list(c.columns) and canon_frame(a) == canon_frame(c) and \
-        [str(x) for x in a.dtypes] == [str(x) for x in c.dtypes]
+        [str(x) for x in a.dtypes] == [str(x) for x in c.dtypes] and \
+        [repr(x) for x in a.index] == [repr(x) for x in c.index]
 
 
 def exact_sig(frames):
@@ -371,6 +372,10 @@ def history(b, ec, rng, length):
                 model_exact[mk] = ex_sig
                 n = rng.randint(0, 3)
                 res = pandas.DataFrame({"r": [rng.randint(0, 9) for _ in range(n)], "s": [rng.choice("ab") for _ in range(n)]})
+                if n > 0 and rng.random() < 0.4:
+                    # a result that was filtered / sorted on the Pandas side carries its own row labels
+                    res.index = rng.choice([list(range(n, 0, -1)), [10 * i + 3 for i in range(n)], ["k%d" % i for i in range(n)]])
+                    b.count("stored_results_with_own_index")
                 cache.store(db_model=m, sql=sql, data_map=frames, res=res)
                 model[mk] = res.copy()
                 stored_src.append((res, frames))
@@ -389,7 +394,8 @@ def history(b, ec, rng, length):
                 if hit:
                     if not frames_equal_exact(got, model[mk]):
                         b.violation("cache-value-mismatch",
-                                    f"get returned {got.to_dict('list')} expected {model[mk].to_dict('list')}; {ctx}",
+                                    f"get returned {got.to_dict('list')} (index {list(got.index)}) expected "
+                                    f"{model[mk].to_dict('list')} (index {list(model[mk].index)}); {ctx}",
                                     case={"history": opnames})
                         return
                     if any(got is r for r in returned) or any(got is s for s, _ in stored_src):
